@@ -49,7 +49,7 @@ Theorem D_sound (e : expr) (env : nat -> R) (i : nat) :
   defined env e ->
   is_derive (fun t => evalR (upd env i t) e) (env i) (evalR env (D i e)).
 Proof.
-  induction e as [q | j | a IHa b IHb | a IHa b IHb | a IHa b IHb | a IHa b IHb | a IHa | f a IHa]; intro Hd.
+  induction e as [q | j | a IHa b IHb | a IHa b IHb | a IHa b IHb | a IHa b IHb | a IHa | f a IHa | a IHa]; intro Hd.
   - simpl. rewrite Q2R_0'. apply @is_derive_const.
   - simpl. unfold upd. destruct (Nat.eqb i j) eqn:E; simpl.
     + rewrite Q2R_1'. apply @is_derive_id.
@@ -81,6 +81,7 @@ Proof.
       destruct f; simpl; rewrite ?Q2R_1', ?Q2R_2'; try ring.
       * field. apply Rgt_not_eq, sqrt_lt_R0, Hpos.
       * field. apply Rgt_not_eq, Hpos.
+  - simpl in *. apply IHa, Hd.
 Qed.
 
 (* the same for a whole Jacobian *)
@@ -96,7 +97,7 @@ Qed.
 (* derivatives of defined expressions are again defined wherever the original is: gradients are finite *)
 Lemma D_defined (e : expr) (env : nat -> R) (i : nat) : defined env e -> defined env (D i e).
 Proof.
-  induction e as [q | j | a IHa b IHb | a IHa b IHb | a IHa b IHb | a IHa b IHb | a IHa | f a IHa]; intro Hd.
+  induction e as [q | j | a IHa b IHb | a IHa b IHb | a IHa b IHb | a IHa b IHb | a IHa | f a IHa | a IHa]; intro Hd.
   - exact I.
   - simpl. destruct (Nat.eqb i j); exact I.
   - simpl in *. tauto.
@@ -113,4 +114,63 @@ Proof.
     + tauto.
     + tauto.
     + tauto.
+  - simpl in *. auto.
+Qed.
+
+(* ---------------------------------------------------------------------------------------------- *)
+(* what automatic differentiation returns (G: nothing flows through a cut) is the derivative exactly when no
+   variable-to-output path crosses a cut                                                            *)
+(* ---------------------------------------------------------------------------------------------- *)
+Lemma closed_D_zero (e : expr) (env : nat -> R) (i : nat) :
+  has_var e = false -> defined env e -> evalR env (D i e) = 0.
+Proof.
+  induction e as [q | j | a IHa b IHb | a IHa b IHb | a IHa b IHb | a IHa b IHb | a IHa | f a IHa | a IHa]; intros Hv Hd.
+  - cbn [D evalR]. exact Q2R_0'.
+  - discriminate.
+  - simpl in *. apply Bool.orb_false_elim in Hv as [Ha Hb]. rewrite IHa, IHb by tauto. ring.
+  - simpl in *. apply Bool.orb_false_elim in Hv as [Ha Hb]. rewrite IHa, IHb by tauto. ring.
+  - simpl in *. apply Bool.orb_false_elim in Hv as [Ha Hb]. rewrite IHa, IHb by tauto. ring.
+  - simpl in *. apply Bool.orb_false_elim in Hv as [Ha Hb]. destruct Hd as (Hda & Hdb & Hnz).
+    rewrite IHa, IHb by tauto. field. exact Hnz.
+  - simpl in *. rewrite IHa by tauto. ring.
+  - destruct f; cbn [D evalR ufun_R has_var defined] in *.
+    + destruct Hd as [Hda Hp]. rewrite IHa by tauto. rewrite Q2R_2'. field. apply Rgt_not_eq, sqrt_lt_R0, Hp.
+    + rewrite IHa by tauto. ring.
+    + destruct Hd as [Hda Hp]. rewrite IHa by tauto. field. apply Rgt_not_eq, Hp.
+    + rewrite IHa by tauto. ring.
+    + rewrite IHa by tauto. ring.
+    + rewrite IHa by tauto. ring.
+  - simpl in *. apply IHa; assumption.
+Qed.
+
+Lemma G_eq_D (e : expr) (env : nat -> R) (i : nat) :
+  cutfree e = true -> defined env e -> evalR env (G i e) = evalR env (D i e).
+Proof.
+  induction e as [q | j | a IHa b IHb | a IHa b IHb | a IHa b IHb | a IHa b IHb | a IHa | f a IHa | a IHa]; intros Hc Hd.
+  - reflexivity.
+  - reflexivity.
+  - simpl in *. apply andb_prop in Hc as [Ha Hb]. rewrite IHa, IHb by tauto. reflexivity.
+  - simpl in *. apply andb_prop in Hc as [Ha Hb]. rewrite IHa, IHb by tauto. reflexivity.
+  - simpl in *. apply andb_prop in Hc as [Ha Hb]. rewrite IHa, IHb by tauto. reflexivity.
+  - simpl in *. apply andb_prop in Hc as [Ha Hb]. rewrite IHa, IHb by tauto. reflexivity.
+  - simpl in *. rewrite IHa by tauto. reflexivity.
+  - assert (Hda : defined env a) by (destruct f; simpl in Hd; tauto).
+    destruct f; cbn [G D evalR ufun_R cutfree] in *; rewrite IHa by assumption; reflexivity.
+  - cbn [G D evalR cutfree defined] in *. rewrite Q2R_0'. symmetry. apply closed_D_zero; [|exact Hd].
+    destruct (has_var a); [discriminate | reflexivity].
+Qed.
+
+Theorem G_sound (e : expr) (env : nat -> R) (i : nat) :
+  cutfree e = true -> defined env e ->
+  is_derive (fun t => evalR (upd env i t) e) (env i) (evalR env (G i e)).
+Proof. intros Hc Hd. rewrite (G_eq_D e env i Hc Hd). apply D_sound, Hd. Qed.
+
+(* and a cut on a variable path does lose the derivative: x |-> cut(x) has derivative 1, its reverse-mode gradient is 0 *)
+Lemma G_wrong_with_cut :
+  exists (e : expr) (env : nat -> R), defined env e /\ cutfree e = false /\
+    is_derive (fun t => evalR (upd env 0 t) e) (env 0%nat) 1 /\ evalR env (G 0 e) = 0.
+Proof.
+  exists (ECut (EV 0)), (fun _ => 0). split; [exact I | split; [reflexivity | split]].
+  - simpl. unfold upd. simpl. apply @is_derive_id.
+  - cbn [G evalR]. exact Q2R_0'.
 Qed.
